@@ -389,6 +389,7 @@ type vRecord struct {
 	Lines  string `json:"lines"`  // "" or description of a malformed output line (C15 at the FSM level)
 	View   string `json:"view"`   // "" or mismatch between NAMES/LIST/WHOIS answers and the projected state (C14)
 	Rids   string `json:"rids"`   // "" or description of a reply whose id is not (entry id, position in the batch) (C04/C01)
+	LkLoad string `json:"lkload"` // "" or a live session reported as "no such session" WHILE a snapshot was being loaded (C17)
 	// expiry probe (k = "expire"): sessions with their age relative to the expiration, and what ExpireSessions proposed
 	Exp    int64           `json:"exp,omitempty"`
 	Ages   [][]interface{} `json:"ages,omitempty"`   // [id, rid, age-exp in seconds]
@@ -518,7 +519,41 @@ func vRunHistory(t *testing.T, h int, next func(step int, st map[string]interfac
 					rec.Snap, rec.SnapAt = "Marshal: "+err.Error(), idx+1
 				} else {
 					ns := ircserver.NewIRCServer(vNet, base)
-					if _, err := ns.Unmarshal(b); err != nil {
+					// C17: a node that loads a snapshot serves lookups meanwhile (FSM.Restore publishes the new
+					// server first): until the sessions are there, every id must be "not yet seen", never "no such
+					// session" - a concurrent reader asks for the live sessions all the time
+					var liveIds []uint64
+					for _, x := range d0.srv.VerifProject()["ss"].([]interface{}) {
+						m := x.(map[string]interface{})
+						if m["rid"].(int) == 0 && !m["del"].(bool) {
+							liveIds = append(liveIds, uint64(m["id"].(int64)))
+						}
+					}
+					stop, done := make(chan struct{}), make(chan string, 1)
+					go func() {
+						for {
+							select {
+							case <-stop:
+								done <- ""
+								return
+							default:
+							}
+							for _, id := range liveIds {
+								// (the two lookups inside VerifLookup happen at different instants: "notyet" and "ok" may mix)
+								if c := ns.VerifLookup(id); strings.Contains(c, "nosuch") || strings.Contains(c, "other") {
+									<-stop
+									done <- fmt.Sprintf("session %d looked up while the snapshot was being loaded: %s", id, c)
+									return
+								}
+							}
+						}
+					}()
+					_, uerr := ns.Unmarshal(b)
+					close(stop)
+					if d := <-done; d != "" && rec.LkLoad == "" {
+						rec.LkLoad = d
+					}
+					if err := uerr; err != nil {
 						rec.Snap, rec.SnapAt = "Unmarshal: "+err.Error(), idx+1
 					} else {
 						if d := vStateDiff(dwant, ns.VerifCanonLive()); d != "" && rec.Snap == "" {
